@@ -63,14 +63,14 @@ theorem storeGet_storeSet (st : List (String × List (String × String))) (loc :
       have : (loc == loc') = false := by simpa using (Ne.symm hl)
       cases hf : st.find? (·.1 == loc') <;> simp [List.find?, this]
 
-/-- what `produce` adds: the set states of the node, to the acting worker's own pool -/
+/-- what `produce` adds: the set states of the node, to the own pool of the worker the copy was parsed for (`netOf`) -/
 theorem mem_storeGet_produce (g : Graph) (s : State) (n w : Nat) (loc : String) (vs : String × String) :
     vs ∈ storeGet (produce g s n w).store loc ↔
-      vs ∈ storeGet s.store loc ∨ (loc = (g.worker w).id ∧ vs ∈ (g.node n).sets) := by
+      vs ∈ storeGet s.store loc ∨ (loc = (g.worker (g.netOf n w)).id ∧ vs ∈ (g.node n).sets) := by
   unfold produce
   dsimp only
   rw [storeGet_storeSet]
-  by_cases hl : loc = (g.worker w).id
+  by_cases hl : loc = (g.worker (g.netOf n w)).id
   · subst hl
     simp only [if_true, List.mem_append, List.mem_filter, true_and]
     constructor
@@ -79,7 +79,7 @@ theorem mem_storeGet_produce (g : Graph) (s : State) (n w : Nat) (loc : String) 
       · exact Or.inr h
     · rintro (h | h)
       · exact Or.inl h
-      · by_cases hin : vs ∈ storeGet s.store (g.worker w).id
+      · by_cases hin : vs ∈ storeGet s.store (g.worker (g.netOf n w)).id
         · exact Or.inl hin
         · exact Or.inr ⟨h, by simpa using hin⟩
   · simp [hl]
@@ -606,10 +606,13 @@ theorem shouldRerun_sameNodes {gv g : Graph} (h : SameNodes gv g) (s : State) (n
   simp only [h.dryRun, h.flat, h.cloneSource, idIn_sameNodes h, h.rerunStatus, h.maxTries, h.sets, h.stopStatus,
     sharedResults_sameNodes h, sharedFilteredResults_sameNodes h]
 
+theorem netOf_sameNodes {gv g : Graph} (h : SameNodes gv g) (n w : Nat) : gv.netOf n w = g.netOf n w := by
+  unfold Graph.netOf; rw [h.owner]
+
 theorem scanStates_sameNodes {gv g : Graph} (h : SameNodes gv g) (s : State) (n w : Nat) :
     scanStates gv s n w = scanStates g s n w := by
   unfold scanStates
-  simp only [h.sets, h.scope, h.worker]
+  simp only [h.sets, h.scope, h.worker, netOf_sameNodes h]
 
 theorem runDecision_sameNodes {gv g : Graph} (h : SameNodes gv g) (s : State) (n w : Nat) :
     runDecision gv s n w = runDecision g s n w := by
@@ -1067,7 +1070,8 @@ theorem recordResultR_eff (sa : State) (w n : Nat) (name uid : String) (tag : Na
     rw [nd_setNd_eq X n _ (by rw [hXs.2.2]; exact hn), hXnd n]
 
 /-- what the report of status `st` at `wait = 0` does to the fields `Sem` reads -/
-theorem reportOutcomeR_eff (g : Graph) (s : State) (w n : Nat) (uid st : String) (dur : Nat) :
+theorem reportOutcomeR_eff (g : Graph) (s : State) (w n : Nat) (uid st : String) (dur : Nat)
+    (ho : (g.node n).owner = some w) :
     (reportOutcomeR g s w n .plain uid 0 ⟨some st, dur⟩).1.nodes = s.nodes ∧
     (reportOutcomeR g s w n .plain uid 0 ⟨some st, dur⟩).1.hidden = s.hidden ∧
     (reportOutcomeR g s w n .plain uid 0 ⟨some st, dur⟩).1.jobResults = s.jobResults ++ [((g.node n).name, uid, st, dur)] ∧
@@ -1080,7 +1084,10 @@ theorem reportOutcomeR_eff (g : Graph) (s : State) (w n : Nat) (uid st : String)
   by_cases hp : (st == "PASS" || st == "WARN") = true
   · simp only [hp, if_true, true_and]
     refine ⟨rfl, rfl, rfl, fun loc vs => ?_⟩
-    exact mem_storeGet_produce g _ n w loc vs
+    have hnet : g.netOf n w = w := by unfold Graph.netOf; rw [ho]; rfl
+    have := mem_storeGet_produce g { s with jobResults := s.jobResults ++ [((g.node n).name, uid, st, dur)] } n w loc vs
+    rw [hnet] at this
+    exact this
   · simp only [hp, Bool.false_eq_true, if_false]
     exact ⟨trivial, trivial, trivial, fun loc vs => ⟨Or.inl, fun h => h.elim id (fun h' => h'.1.elim)⟩⟩
 
@@ -1206,7 +1213,7 @@ theorem resumeTest_sem (g : Graph) (H0 : List Nat) (hwf : GraphWF g) (hroot : (g
     obtain ⟨ost, odur⟩ := out
     simp only at hst
     subst hst
-    obtain ⟨hnodes, _, hjob, hstore⟩ := reportOutcomeR_eff g s w n uid st odur
+    obtain ⟨hnodes, _, hjob, hstore⟩ := reportOutcomeR_eff g s w n uid st odur ho
     have hfind : (reportOutcomeR g s w n .plain uid 0 ⟨some st, odur⟩).1.jobResults.find?
         (fun r => r.1 == (g.node n).name && r.2.1 == uid) = some ((g.node n).name, uid, st, odur) := by
       rw [hjob, List.find?_append, hnone]
